@@ -39,12 +39,18 @@ def gen_cfg(rng, tier: str, big: bool = False, kind: str | None = None) -> dict:
                    pad_overhead=rng.choice([0, 0, 1, 7, 128]), sparse_gts=(kind == "stream" or rng.random() < 0.3),
                    desc_late=(kind == "hosted" and rng.random() < 0.3),
                    dirty=rng.random() < 0.1)
+        if kind == "stream":
+            cfg["stream_pad"] = rng.choice(["tight", "tight", "stride", "stride", "slack"])
+        if kind == "hosted":
+            # grain tables / grains in the upper half of the 32-bit sector range (an extent file between 1 and 2 TiB)
+            cfg["far"] = rng.choice(["data31", "datatop", "gt31", "all31"]) if (big and rng.random() < 0.7) or rng.random() < 0.1 else False
     elif kind == "cowd":
         grain = rng.choice([1, 1, 8, 128])
         cover = 4096 * grain
         ngt = rng.choice([1, 1, 2, 3]) if not big else rng.randint(100, 1000)
         nsectors = max(1, ngt * cover - rng.choice([0, 0, rng.randrange(cover)]))
         cfg.update(grain=grain, gtes=4096, nsectors=nsectors, zero_gte=False, sparse_gts=rng.random() < 0.5)
+        cfg["far"] = rng.choice(["data31", "datatop", "gt31", "all31"]) if (big and rng.random() < 0.7) or rng.random() < 0.1 else False
     elif kind == "sesparse":
         grain = 8
         gt_sectors = 64
@@ -150,15 +156,26 @@ def _render_kdmv(cfg, layer, view, name, parent_cid, parent_hint, extent_name) -
         gd_off = pos
         pos += gd_sectors
         gt_pos = {}
+        far = cfg.get("far") or ""
+        near_pos = pos
+        if far in ("gt31", "all31"):
+            pos = (1 << 31) - gt_sectors * (len(gts_needed) // 2) - 1  # the tables straddle sector 2^31
         for t in gts_needed:
             gt_pos[t] = pos
             pos += gt_sectors
+        if far == "gt31":
+            pos = near_pos
         if late:  # the embedded descriptor may sit anywhere in the metadata area: here, behind the tables
             desc_off = pos
             pos += desc_size
         overhead = align_up(pos, grain) + cfg["pad_overhead"]
         slots, nslots = assign_slots(need, cfg["alloc"], cfg["alloc_seed"])
+        if far in ("data31", "all31"):
+            overhead = max(overhead, align_up((1 << 31) - grain * (nslots // 2), grain))  # the grains straddle sector 2^31
+        elif far == "datatop":
+            overhead = max(overhead, ((1 << 32) - grain * (nslots + 1)) // grain * grain)  # the last grain ends just below 2^32
         place = {u: overhead + slots[u] * grain for u in need}
+        assert all(v + grain <= (1 << 32) for v in place.values())
         used = set()
         for u in need:
             a, b = layer.urange(u)
@@ -228,7 +245,14 @@ def _render_kdmv(cfg, layer, view, name, parent_cid, parent_hint, extent_name) -
                 rec = struct.pack("<QI", a, len(comp)) + comp
                 f.write(pos * 512, rec)
                 gtes_vals[u] = pos
-                pos += (len(rec) + 511) // 512
+                used = (len(rec) + 511) // 512
+                pad = cfg.get("stream_pad", "tight")
+                if pad == "stride":
+                    # a record whose deflate stream fills its grain: the next record starts exactly one grain further
+                    used = max(used, grain)
+                elif pad == "slack":
+                    used += (u * 7 + 3) % 4
+                pos += used
             flush_gt(t)
         f.write(pos * 512, struct.pack("<QII", gd_sectors, 0, 2).ljust(512, b"\0"))
         pos += 1
@@ -295,11 +319,21 @@ def _render_cowd(cfg, layer, view, name) -> Image:
     gts_needed = sorted({u // 4096 for u in need}) if cfg["sparse_gts"] else list(range(ngt))
     pos = gd_off + gd_sectors
     gt_pos = {}
+    far = cfg.get("far") or ""
+    near_pos = pos
+    if far in ("gt31", "all31"):
+        pos = (1 << 31) - 32 * (len(gts_needed) // 2) - 1
     for t in gts_needed:
         gt_pos[t] = pos
         pos += 32  # 4096 entries * 4 bytes
+    if far == "gt31":
+        pos = near_pos
     slots, nslots = assign_slots(need, cfg["alloc"], cfg["alloc_seed"])
     data = pos
+    if far in ("data31", "all31"):
+        data = max(data, (1 << 31) - grain * (nslots // 2))
+    elif far == "datatop":
+        data = max(data, (1 << 32) - grain * (nslots + 1))
     place = {u: data + slots[u] * grain for u in need}
     used = set()
     for u in need:
